@@ -104,7 +104,7 @@ uint32_t ref_uri_split(const uint8_t *s, size_t n, int allow_proxy_schemes, stru
 
 /* ---- segment lists ------------------------------------------------------------------------------- */
 #define REF_MAXSEG 48
-#define REF_MAXSEGLEN 96
+#define REF_MAXSEGLEN 288
 struct ref_seglist {
   int n;
   size_t len[REF_MAXSEG];
